@@ -616,6 +616,9 @@ func (c *child) runScenario(sc *scenario) endInfo {
 			if gate != nil {
 				gate.Release()
 			}
+		case "sleep":
+			// V ms of real time pass (nothing is judged by time: only the stream gets older)
+			time.Sleep(time.Duration(o.V) * time.Millisecond)
 		case "waithandled":
 			// until V handler calls of the session have returned (bounded)
 			ss[i].waitCond(5*time.Second, func() bool { return ss[i].returned >= o.V })
